@@ -19,6 +19,12 @@ CLAIMED = {
         text="For each of several compiler-produced files (fixed programs covering all section kinds + seed-chosen repository programs) the fault space named by the property is enumerated: complete for single-bit flips, truncation lengths and magic/version values, complete over (offset, length) for bursts with fixed and sampled interior patterns; oracle nvm_deserialize == NULL on exact-size heap buffers (ASan/UBSan). A Hypothesis sample of the same fault space is applied to files on disk and run through nano_vm: non-zero exit, error text, no program output.",
         note="Complete only for the files used; burst interiors and tail contents are sampled. Header fields other than magic/version are outside the statement ('after its header') and belong to C13.",
         design="3/C12"),
+    "C01": dict(
+        category="exploration",
+        technique="Hypothesis-generated typed programs (progen), differential oracle native vs NanoVM on stdout bytes + exit status, shrinking to a minimal .nano replay; feature gates tied to the findings ledger",
+        text="Well-typed, terminating, defined-by-construction programs over the documented core language (ints incl. 64-bit boundaries and wrapping, bools, strings incl. escapes/UTF-8/long literals, floats compared, arrays, structs, enums, unions+match, tuples, globals, recursion, first-class functions, while/for/break/continue, shadowing) are compiled by nanoc (+cc) and by nano_virt --run; stdout bytes and exit status must be equal. A reference evaluator only discards undefined/over-budget programs. Exploration: the program space is sampled; open ledger findings gate their trigger shapes (counted in evidence).",
+        note="Multi-file imports and map/filter/reduce are not generated yet; native programs link a prebuilt archive of the runtime compiled with nanoc's own flags (tools/nanocc shim).",
+        design="3/C01"),
 }
 
 NOT_YET = {
